@@ -314,6 +314,10 @@ theorem grow_free (st : St) (a : Nat) : Grow st (st.free a) := by
   · exact grow_setW st a _ rfl
   · exact grow_fail st _
 
+theorem grow_sigRecord (st : St) (s : Int) : Grow st (sigRecord st s) := by
+  unfold sigRecord
+  split <;> first | exact Grow.of_eq rfl rfl | exact Grow.refl _
+
 theorem grow_raiseSig (st : St) (s : Int) : Grow st (raiseSig st s) := by
   unfold raiseSig
   split
@@ -321,7 +325,7 @@ theorem grow_raiseSig (st : St) (s : Int) : Grow st (raiseSig st s) := by
   · split
     · exact Grow.of_eq rfl rfl
     · split
-      · exact Grow.of_eq rfl rfl
+      · exact grow_sigRecord st s
       · split
         · exact Grow.of_eq rfl rfl
         · exact Grow.refl st
@@ -1183,7 +1187,9 @@ theorem grow_pollTimeout (st : St) (t : Option Int) : Grow st (pollTimeout st t)
   · exact Grow.of_eq rfl rfl
   · exact Grow.refl _
 
-theorem grow_deliverPending (st : St) : Grow st (deliverPending st) := Grow.of_eq rfl rfl
+theorem grow_deliverPending (st : St) : Grow st (deliverPending st) := by
+  unfold deliverPending
+  split <;> exact Grow.of_eq rfl rfl
 
 theorem grow_ppoll (st : St) (t : Option Int) : Grow st (ppoll st t).1 := by
   unfold ppoll
@@ -1763,8 +1769,33 @@ theorem cfg_raiseSig (st : St) (s : Int) : (raiseSig st s).cfg = st.cfg := by
   · split
     · rfl
     · split
-      · rfl
+      · unfold sigRecord; split <;> rfl
       · split <;> rfl
+
+/-- Nothing but `evloop_init`/`evloop_destroy` moves `signal_observer`. -/
+theorem observer_raiseSig (st : St) (s : Int) : (raiseSig st s).observer = st.observer := by
+  unfold raiseSig
+  split
+  · rfl
+  · split
+    · rfl
+    · split
+      · unfold sigRecord; split <;> (rename_i h; simp only [h])
+      · split <;> rfl
+
+theorem observer_foldl_raiseSig (l : List Int) : ∀ st : St, (l.foldl raiseSig st).observer = st.observer := by
+  induction l with
+  | nil => intro st; rfl
+  | cons s rest ih => intro st; simp only [List.foldl_cons]; rw [ih, observer_raiseSig]
+
+theorem observer_pollRaise (st : St) : (pollRaise st).observer = st.observer := by
+  unfold pollRaise; rw [observer_foldl_raiseSig]
+
+theorem cfg_deliverPending (st : St) : (deliverPending st).cfg = st.cfg := by
+  unfold deliverPending; split <;> rfl
+
+theorem kpending_deliverPending (st : St) : (deliverPending st).kpending = [] := by
+  unfold deliverPending; split <;> rfl
 
 theorem cfg_foldl_raiseSig (l : List Int) : ∀ st : St, (l.foldl raiseSig st).cfg = st.cfg := by
   induction l with
@@ -1781,7 +1812,7 @@ theorem cfg_ppoll (st : St) (t : Option Int) : (ppoll st t).1.cfg = st.cfg := by
   · split
     · show (pollRaise (pollScan st)).cfg = _; rw [cfg_pollRaise]; rfl
     · split
-      · show (pollRaise (pollScan st)).cfg = _; rw [cfg_pollRaise]; rfl
+      · show (deliverPending (pollRaise (pollScan st))).cfg = _; rw [cfg_deliverPending, cfg_pollRaise]; rfl
       · show (pollTimeout (pollRaise (pollScan st)) t).cfg = _
         unfold pollTimeout
         split
@@ -1796,6 +1827,16 @@ theorem cfg_nextTimerMsec (st : St) : (nextTimerMsec st).1.cfg = st.cfg := by
     · rfl
     · split
       · rw [St.cfg_fail]; rfl
+      · rfl
+
+theorem observer_nextTimerMsec (st : St) : (nextTimerMsec st).1.observer = st.observer := by
+  unfold nextTimerMsec
+  split
+  · rfl
+  · split
+    · rfl
+    · split
+      · unfold St.fail; split <;> rfl
       · rfl
 
 theorem mem_foldl_setInsert (l : List Int) : ∀ (acc : List Int) (s : Int),
@@ -1827,11 +1868,9 @@ theorem mem_foldl_setInsert (l : List Int) : ∀ (acc : List Int) (s : Int),
       · exact List.mem_cons_of_mem _ h
 
 /-- The wait fails with `EINTR` exactly in the third case of the harness's `ppoll`; then `errno` is
-    `EINTR`, nothing stays pending in the kernel, and every signal that was pending has been recorded
-    by the loop's handler. -/
-theorem ppoll_eintr (st : St) (t : Option Int) (h : (ppoll st t).2 = none) :
-    (ppoll st t).1.errno = EINTR ∧ (ppoll st t).1.kpending = [] ∧
-    ∀ s ∈ (pollRaise (pollScan st)).kpending, s ∈ (ppoll st t).1.pendingSig := by
+    `EINTR` and nothing stays pending in the kernel. -/
+theorem ppoll_eintr_errno (st : St) (t : Option Int) (h : (ppoll st t).2 = none) :
+    (ppoll st t).1.errno = EINTR ∧ (ppoll st t).1.kpending = [] := by
   unfold ppoll at h ⊢
   split at h
   · cases h
@@ -1840,11 +1879,52 @@ theorem ppoll_eintr (st : St) (t : Option Int) (h : (ppoll st t).2 = none) :
     · split at h
       · rename_i h1 h2 h3
         rw [if_neg h1, if_neg h2, if_pos h3]
-        refine ⟨rfl, rfl, ?_⟩
+        refine ⟨rfl, ?_⟩
+        show (deliverPending (pollRaise (pollScan st))).kpending = []
+        exact kpending_deliverPending _
+      · cases h
+
+/-- … and, when `signal_observer` points at the loop that waits, every signal that was pending has been
+    recorded by the handler in this loop's `pending_signals`. -/
+theorem ppoll_eintr (st : St) (t : Option Int) (ho : st.observer = .self) (h : (ppoll st t).2 = none) :
+    (ppoll st t).1.errno = EINTR ∧ (ppoll st t).1.kpending = [] ∧
+    ∀ s ∈ (pollRaise (pollScan st)).kpending, s ∈ (ppoll st t).1.pendingSig := by
+  refine ⟨(ppoll_eintr_errno st t h).1, (ppoll_eintr_errno st t h).2, ?_⟩
+  unfold ppoll at h ⊢
+  split at h
+  · cases h
+  · split at h
+    · cases h
+    · split at h
+      · rename_i h1 h2 h3
+        rw [if_neg h1, if_neg h2, if_pos h3]
         intro s hs
         show s ∈ (deliverPending (pollRaise (pollScan st))).pendingSig
+        have hobs : (pollRaise (pollScan st)).observer = .self := by rw [observer_pollRaise]; exact ho
         unfold deliverPending
+        rw [hobs]
         exact mem_foldl_setInsert _ _ _ (Or.inl hs)
+      · cases h
+
+/-- When `signal_observer` does not point at the loop that waits (another toplevel instance was built
+    first, or the observer has been destroyed), an interrupted wait records nothing in this loop. -/
+theorem ppoll_eintr_not_observer (st : St) (t : Option Int) (ho : st.observer ≠ .self) (h : (ppoll st t).2 = none) :
+    (ppoll st t).1.pendingSig = (pollRaise (pollScan st)).pendingSig := by
+  unfold ppoll at h ⊢
+  split at h
+  · cases h
+  · split at h
+    · cases h
+    · split at h
+      · rename_i h1 h2 h3
+        rw [if_neg h1, if_neg h2, if_pos h3]
+        show (deliverPending (pollRaise (pollScan st))).pendingSig = _
+        have hobs : (pollRaise (pollScan st)).observer = st.observer := by rw [observer_pollRaise]; rfl
+        unfold deliverPending
+        split
+        · rename_i hh; rw [hobs] at hh; exact absurd hh ho
+        · rfl
+        · rfl
       · cases h
 
 /-- With `errno` read right after the wait (the repaired `evloop_run`), an interrupted wait always
@@ -1876,7 +1956,7 @@ theorem tick_eintr_dispatches (fuel : Nat) (st : St) (nohang : Bool) (hs : st.cf
   rw [hint]
   apply tickAfterPoll_eintr_saved
   · rw [cfg_ppoll, cfg_nextTimerMsec]; exact hs
-  · exact (ppoll_eintr _ _ hint).1
+  · exact (ppoll_eintr_errno _ _ hint).1
   · exact hok3
 
 /-- `evloop_io` with the repair: the slot it hands out has nothing reported. -/
